@@ -126,6 +126,7 @@ func init() {
 	}
 	envFuncs["math/rand.Intn"] = envFuncs["(*math/rand.Rand).Intn"]
 	timeEnv()
+	contextEnv()
 	envFuncs["(*sync.Pool).Put"] = nop
 	envFuncs["(*sync.Pool).Get"] = func(fc *FnCtx, fr *Frame, st *State, reach string, args []Val, call ssa.CallInstruction) Val {
 		v := fc.freshVal(st, call.Common().Signature().Results().At(0).Type(), "pooled")
@@ -230,5 +231,72 @@ func timeEnv() {
 		now := freshTime(fc, st, args[0].T, "")
 		d := fc.nameTerm("tsince", "Int", sx("-", tnanos(fc, now), tnanos(fc, args[0])))
 		return intVal(res(call), tIte(sx(">", d, maxI64), maxI64, tIte(sx("<", d, minI64), minI64, d)))
+	}
+}
+
+// ---- context.Context: deadline as a stable function of the context value ----
+// ctxdl(v) = deadline in Unix nanoseconds, ctxhasdl(v) = whether there is one.
+// WithTimeout/WithDeadline give min(parent, requested); WithCancel/WithValue
+// inherit; Background has none. Err()/Done() stay arbitrary.
+
+func ctxDl(fc *FnCtx, ctx Val) (dl, has string) {
+	fc.sc.declareFun("ctxdl", []string{"Int"}, "Int")
+	fc.sc.declareFun("ctxhasdl", []string{"Int"}, "Bool")
+	return sx("ctxdl", ctx.S), sx("ctxhasdl", ctx.S)
+}
+
+func freshCtx(fc *FnCtx, st *State, t types.Type) Val {
+	v := fc.freshVal(st, t, "ctx")
+	fc.sc.assume(tNot(tEq(v.Tag, "0")))
+	return v
+}
+
+func contextEnv() {
+	for _, pkg := range []string{"context", "golang.org/x/net/context"} {
+		pkg := pkg
+		envInvoke[pkg+".Context.Deadline"] = func(fc *FnCtx, fr *Frame, st *State, reach string, recv Val, args []Val, call ssa.CallInstruction) Val {
+			tu := call.Common().Signature().Results()
+			dl, has := ctxDl(fc, recv)
+			t := freshTime(fc, st, tu.At(0).Type(), dl)
+			return Val{K: KTuple, T: tu, Fs: []Val{t, boolVal(has)}}
+		}
+		withDl := func(fc *FnCtx, st *State, call ssa.CallInstruction, parent Val, want string) Val {
+			tu := call.Common().Signature().Results()
+			c := freshCtx(fc, st, tu.At(0).Type())
+			pdl, phas := ctxDl(fc, parent)
+			cdl, chas := ctxDl(fc, c)
+			if want == "" {
+				fc.sc.assume(tAnd(tEq(chas, phas), tEq(cdl, pdl)))
+			} else {
+				fc.sc.assume(tAnd(chas, tEq(cdl, tIte(tAnd(phas, sx("<", pdl, want)), pdl, want))))
+			}
+			cancel := fc.freshVal(st, tu.At(1).Type(), "cancel")
+			fc.sc.assume(tNot(tEq(cancel.S, "0")))
+			return Val{K: KTuple, T: tu, Fs: []Val{c, cancel}}
+		}
+		envFuncs[pkg+".WithTimeout"] = func(fc *FnCtx, fr *Frame, st *State, reach string, args []Val, call ssa.CallInstruction) Val {
+			now := fc.sc.fresh("ctxnow", "Int")
+			fc.sc.declare("g_lastnow", "Int")
+			return withDl(fc, st, call, args[0], sx("+", now, args[1].S))
+		}
+		envFuncs[pkg+".WithDeadline"] = func(fc *FnCtx, fr *Frame, st *State, reach string, args []Val, call ssa.CallInstruction) Val {
+			return withDl(fc, st, call, args[0], tnanos(fc, args[1]))
+		}
+		envFuncs[pkg+".WithCancel"] = func(fc *FnCtx, fr *Frame, st *State, reach string, args []Val, call ssa.CallInstruction) Val {
+			return withDl(fc, st, call, args[0], "")
+		}
+		envFuncs[pkg+".WithValue"] = func(fc *FnCtx, fr *Frame, st *State, reach string, args []Val, call ssa.CallInstruction) Val {
+			c := freshCtx(fc, st, call.Common().Signature().Results().At(0).Type())
+			pdl, phas := ctxDl(fc, args[0])
+			cdl, chas := ctxDl(fc, c)
+			fc.sc.assume(tAnd(tEq(chas, phas), tEq(cdl, pdl)))
+			return c
+		}
+		envFuncs[pkg+".Background"] = func(fc *FnCtx, fr *Frame, st *State, reach string, args []Val, call ssa.CallInstruction) Val {
+			c := freshCtx(fc, st, call.Common().Signature().Results().At(0).Type())
+			_, chas := ctxDl(fc, c)
+			fc.sc.assume(tNot(chas))
+			return c
+		}
 	}
 }
